@@ -866,6 +866,10 @@ func (p *queryPlan) projectAndGroupBy() error {
 			Msgs: []string{"Starting group reduce and projection"},
 		}
 	})
+	if p.tbl.NumRows() == 0 {
+		// No solutions, hence no groups; Execute corrects the bindings of the empty table.
+		return nil
+	}
 	// The table needs to be group reduced.
 	// Project only binding involved in the group operation.
 	tmpBindings := []string{}
